@@ -76,6 +76,8 @@ func init() {
 			r.Rule("C19.narrowing", "narrowing of a decoded integer is range-checked", 40)
 			r.Rule("C19.failure-results", "nil/ok failure results are checked before success", 2)
 			r.Rule("C19.bounds", "fixed-position slicing of decoded bytes is length-checked", 0)
+			r.Rule("C19.error-propagation", "a failed helper fails the decoder (no `return nil` on an err != nil branch)", 40)
+			r.Rule("C19.fresh-target", "decoders fill the receiver or fresh objects, never an object held in a package-level variable", 40)
 			roots, scope := DecoderScope(r.W)
 			if len(roots) < 40 {
 				r.Undecided("C19.narrowing", "scope", fmt.Sprintf("expected at least 40 Unmarshal methods, found %d", len(roots)))
@@ -219,6 +221,75 @@ func init() {
 						r.Cond(ok, "C19.bounds", construct, in.Pos(), "conversion of a decoded byte string to an array panics on a short input unless its length was checked")
 					}
 				})
+				// decoded values must not alias each other: the object a nested
+				// Unmarshal fills (or a store goes to) must not come from a
+				// package-level variable (a shared prototype would be overwritten by
+				// the next decode)
+				{
+					shared := ""
+					EachInstr(fn, func(in ssa.Instruction) {
+						switch x := in.(type) {
+						case ssa.CallInstruction:
+							cc := x.Common()
+							isUnm := (cc.IsInvoke() && cc.Method.Name() == "Unmarshal") || (!cc.IsInvoke() && strings.HasSuffix(CalleeName(x), ".Unmarshal") && cc.Signature().Recv() != nil)
+							if !isUnm {
+								return
+							}
+							recv := cc.Value
+							if !cc.IsInvoke() && len(cc.Args) > 0 {
+								recv = cc.Args[0]
+							}
+							if dependsOnGlobal(recv) {
+								shared = "receiver of " + shortCallee(x) + " at " + r.W.Pos(in.Pos())
+							}
+						case *ssa.Store:
+							if _, isG := addrRoot(x.Addr).(*ssa.Global); isG {
+								shared = "store into a package-level variable at " + r.W.Pos(in.Pos())
+							}
+						}
+					})
+					r.Cond(shared == "", "C19.fresh-target", name, fn.Pos(), "decoded data goes into the receiver or freshly allocated objects; shared target: "+shared)
+				}
+				// a failed helper must fail the decoder: returning nil on the
+				// err != nil branch reports a malformed record as decoded
+				if res := fn.Signature.Results(); res.Len() >= 1 {
+					if nt, isN := res.At(res.Len() - 1).Type().(*types.Named); isN && nt.Obj().Name() == "error" && nt.Obj().Pkg() == nil {
+						for _, b := range fn.Blocks {
+							ret, ok := b.Instrs[len(b.Instrs)-1].(*ssa.Return)
+							if !ok || deadRecover(b) {
+								continue
+							}
+							failed := ""
+							for _, g := range Guards(b) {
+								bo, ok := g.Cond.(*ssa.BinOp)
+								if !ok || (bo.Op != token.EQL && bo.Op != token.NEQ) {
+									continue
+								}
+								var ev ssa.Value
+								switch {
+								case isNilConst(bo.Y):
+									ev = bo.X
+								case isNilConst(bo.X):
+									ev = bo.Y
+								default:
+									continue
+								}
+								if nt2, isN2 := ev.Type().(*types.Named); !isN2 || nt2.Obj().Name() != "error" {
+									continue
+								}
+								if (bo.Op == token.NEQ && g.Pol) || (bo.Op == token.EQL && !g.Pol) {
+									failed = abbr(Desc(ev), 1)
+								}
+							}
+							if failed == "" {
+								continue
+							}
+							rv := RetResults(ret)[res.Len()-1]
+							r.Cond(!isNilConst(rv), "C19.error-propagation", name+"#return-after-"+failed, ret.Pos(),
+								"on the branch where "+failed+" is a non-nil error the decoder must return an error, not nil (a malformed record would be reported as decoded, half-initialised)")
+						}
+					}
+				}
 				// failure results
 				for _, c := range CallsMatching(fn, `^math/big\.Int\.SetString$`) {
 					cv := callValue(c)
